@@ -7,7 +7,15 @@
   stage finds a solution for is rendered first on its own line after exactly `level` indentation units.  For child
   lines (Proofs/SearchChildLines.lean): every child solution, at every depth, computed or taken from the
   `child_line_cache`, starts with the whitespace derived from its parent solution's starting whitespace, its own line's
-  level and the `ChildLineOption` chosen for it (`TreeOk`).
+  level and the `ChildLineOption` chosen for it (`TreeOk`).  Counter level for child lines
+  (Proofs/SearchChildTokens.lean): when such a solution is applied, the first token of every child line, at every
+  depth, placed after a break gets 1-2 line breaks, the parent solution's indentations plus its own level minus the
+  option's de-indentation (at most one), and the option's continuations (`child_line_first_token`); siblings of one
+  option are aligned and one level more is one indentation more (`sibling_children_same_indent`).
+  `begin_style = always_wrap` (Proofs/SearchBeginWrap.lean): carried from the decision point to every solution the search
+  returns, at every depth, with a strengthened invariant (`TreeOk'`: each decision knows the `lineChildren` record its
+  child solutions belong to) - `begin_always_wrap`, and down to the counters of the `begin` token:
+  `begin_always_wrap_counters`.
   That the parser opens a `+1` context for exactly the listed bodies and finishes a line at every
   statement boundary is grammar knowledge of its control flow: checked by the generator-marked
   structure oracle on every case (level "other", partial).
@@ -16,6 +24,8 @@ import PasfmtModel.Props.C08
 import PasfmtModel.Model.Parser
 import PasfmtModel.Proofs.SearchFirstToken
 import PasfmtModel.Proofs.SearchChildLines
+import PasfmtModel.Proofs.SearchChildTokens
+import PasfmtModel.Proofs.SearchBeginWrap
 
 namespace Pasfmt.C05
 
@@ -150,5 +160,181 @@ theorem begin_always_wrap_partial (O : Olf) (solve : Solver) (hK : SolverKey O s
           (x.2.decisions.head?).map (·.decision) = some (rootDec O (O.lines[x.1]!) .brk)) :=
   Pasfmt.begin_always_wrap_partial O solve hK hT cache line nli W decision stack node tll pc hc hbb lineChildren hlc
     hpt hfirst
+
+/-- CHILD LINES, COUNTER LEVEL.  `root` is a solution of the search whose child solutions are well placed (`TreeOk`:
+    every solution `format_line` returns, `format_line_children`), applied by `reconstruct_solution` in the form
+    `toSol` with enough fuel for the depth looked at; `par` is any solution in its tree (`FDesc k`: `root` itself for
+    `k = 0`, a child solution for `k = 1`, and so on) with starting whitespace `W`.  For every decision (token) of `par`
+    there is one `ChildLineOption` for all child lines hanging off it, derived from `W`, such that the first token `c0`
+    of the `p`-th child line `cl` (written once by the whole tree) ends up: for `BreakAll` and all but the first child
+    of `ContinueThenBreak` (when the line may be broken off its predecessor) with one line break (two where a blank line
+    was), `W.indentations + cl.level - deindent` indentations, `deindent ≤ 1` the option's, and the option's
+    continuations (at least `W`'s) - a statement in an anonymous routine body or a `begin…end` child block starts its
+    own line, indented relative to its parent line by its level; otherwise (`ContinueAll`, first child of
+    `ContinueThenBreak`) with no line break and no whitespace -/
+theorem child_line_first_token (O : Olf) (lines : List Line) (ft ft1 : FT) (root par : FormattingSolution)
+    (k m li pli : Nat) (hroot : TreeOk O root) (hdesc : FDesc k root li par pli)
+    (d : TokenDecision) (hd : d ∈ par.decisions)
+    (ha : applySol lines ft (root.toSol (k + 2 + m)) li = some ft1) :
+    ∃ option : ChildLineOption, OptionFrom par.startingWs option ∧
+      ∀ (p : Nat) (x : Nat × FormattingSolution) (cl : Line) (c0 : Nat), d.childSolutions[p]? = some x →
+        lines[x.1]? = some cl → O.lines[x.1]! = cl.toA → cl.tokens[0]? = some c0 →
+        (solTokens lines (root.toSol (k + 2 + m)) li).count c0 = 1 →
+        ChildSolOk O option p x ∧
+        ∃ t, ft[c0]? = some t ∧
+          ((option.breaksAt p = true ∧ O.getFormattingInvariant 0 cl.toA ≠ some .mustNotBreak) →
+            option.startingWs.deindent ≤ 1 ∧
+            par.startingWs.continuations ≤ option.startingWs.whitespace.continuations ∧
+            ft1[c0]? = some { t with fmt :=
+              { t.fmt with nl := nlc t.fmt.nl,
+                           ind := par.startingWs.indentations + cl.level - option.startingWs.deindent,
+                           cont := option.startingWs.whitespace.continuations } }) ∧
+          ((option.breaksAt p = false ∨ O.getFormattingInvariant 0 cl.toA = some .mustNotBreak) →
+            ft1[c0]? = some { t with fmt := contFmt t.fmt }) :=
+  Pasfmt.child_line_first_token O lines ft ft1 root par k m li pli hroot hdesc d hd ha
+
+/-- the generic fact behind it, about `reconstruct_solution` alone: when a solution tree is applied, the first token of
+    the line of ANY solution in the tree (`SubSol`, any depth) gets the first decision of that solution applied with
+    that solution's starting whitespace - provided the whole tree writes the token once -/
+theorem subSol_first_token (lines : List Line) (s : Sol) (li : Nat) (s' : Sol) (li' : Nat) (hsub : SubSol s li s' li')
+    (ft ft1 : FT) (ind cont : Nat) (d : Dec) (ch : List (Nat × Sol)) (rest : List (Dec × List (Nat × Sol)))
+    (l : Line) (t0 : Nat) (hs : s' = .mk ind cont ((d, ch) :: rest)) (hl : lines[li']? = some l)
+    (ht : l.tokens[0]? = some t0) (ha : applySol lines ft s li = some ft1)
+    (hone : (solTokens lines s li).count t0 = 1) :
+    ∃ t, ft[t0]? = some t ∧ ft1[t0]? = some { t with fmt := applyDec t.fmt true ind cont d } :=
+  Pasfmt.subSol_first_token lines hsub ft ft1 ind cont d ch rest l t0 hs hl ht ha hone
+
+/-- SIBLINGS ARE ALIGNED.  Two child lines `clp`, `clq` hanging off the same token of a solution `par` (any depth in an
+    applied solution tree), both placed after a break: there are `e ≤ 1` (the option's de-indentation) and
+    `c ≥ W.continuations` such that both first tokens start their line (1 or 2 line breaks) with
+    `W.indentations + level - e` indentations and `c` continuations.  So the statements of one list with the same level
+    get the same indentation and continuation, and a line one level deeper than a sibling gets exactly one indentation
+    more (as long as `1 ≤ W.indentations + clp.level`: at indentation 0, level 0 and `e = 1` the subtraction stops at
+    0 for both) -/
+theorem sibling_children_same_indent (O : Olf) (lines : List Line) (ft ft1 : FT) (root par : FormattingSolution)
+    (k m li pli : Nat) (hroot : TreeOk O root) (hdesc : FDesc k root li par pli)
+    (d : TokenDecision) (hd : d ∈ par.decisions)
+    (ha : applySol lines ft (root.toSol (k + 2 + m)) li = some ft1) :
+    ∃ (option : ChildLineOption) (e c : Nat), OptionFrom par.startingWs option ∧ e ≤ 1 ∧
+      par.startingWs.continuations ≤ c ∧
+      ∀ (p q : Nat) (x y : Nat × FormattingSolution) (clp clq : Line) (cp cq : Nat),
+        d.childSolutions[p]? = some x → d.childSolutions[q]? = some y →
+        lines[x.1]? = some clp → O.lines[x.1]! = clp.toA → clp.tokens[0]? = some cp →
+        lines[y.1]? = some clq → O.lines[y.1]! = clq.toA → clq.tokens[0]? = some cq →
+        (solTokens lines (root.toSol (k + 2 + m)) li).count cp = 1 →
+        (solTokens lines (root.toSol (k + 2 + m)) li).count cq = 1 →
+        option.breaksAt p = true → option.breaksAt q = true →
+        O.getFormattingInvariant 0 clp.toA ≠ some .mustNotBreak →
+        O.getFormattingInvariant 0 clq.toA ≠ some .mustNotBreak →
+        ∃ fp fq, fmtAt ft1 cp = some fp ∧ fmtAt ft1 cq = some fq ∧
+          StartsLine (par.startingWs.indentations + clp.level - e) c fp ∧
+          StartsLine (par.startingWs.indentations + clq.level - e) c fq ∧
+          fp.cont = fq.cont ∧
+          (clp.level = clq.level → fp.ind = fq.ind) ∧
+          (clq.level = clp.level + 1 → 1 ≤ par.startingWs.indentations + clp.level → fq.ind = fp.ind + 1) :=
+  Pasfmt.sibling_children_same_indent O lines ft ft1 root par k m li pli hroot hdesc d hd ha
+
+/-- the wrapper stage, child lines of a top-level line: for every solution `x = (phase, i, s)` the stage applied
+    (first wrapping or re-wrapping), at the moment it is applied (`ft` to `ft1`): for every token of line `i` (level
+    `L`) there are an option, `e ≤ 1` and `c` such that every child line `cl` hanging off that token and placed after a
+    break, whose first token `c0` the solution writes once, starts its own line: 1 or 2 line breaks,
+    `L + cl.level - e` indentations, `c` continuations -/
+theorem wrapStageFull_child_first_token (cfg : Config) (lines : List Line) (ft0 ftz : FT)
+    (sols : List (Nat × Nat × Sol)) (h : wrapStageFull cfg lines ft0 = some (ftz, sols))
+    (x : Nat × Nat × Sol) (hx : x ∈ sols) (ft ft1 : FT) (ha : applySol lines ft x.2.2 x.2.1 = some ft1) :
+    let O := stageOlf (searchInit cfg lines ft0) ft0
+    ∃ sol : FormattingSolution, x.2.2 = sol.toSol (O.lines.size + 1) ∧ TreeOk O sol ∧
+      sol.startingWs = { indentations := (O.lines[x.2.1]!).level, continuations := 0 } ∧
+      ∀ d ∈ sol.decisions, ∃ (option : ChildLineOption) (e c : Nat), OptionFrom sol.startingWs option ∧ e ≤ 1 ∧
+        ∀ (p : Nat) (y : Nat × FormattingSolution) (cl : Line) (c0 : Nat), d.childSolutions[p]? = some y →
+          lines[y.1]? = some cl → cl.tokens[0]? = some c0 → (solTokens lines x.2.2 x.2.1).count c0 = 1 →
+          option.breaksAt p = true → O.getFormattingInvariant 0 cl.toA ≠ some .mustNotBreak →
+          ∃ f, fmtAt ft1 c0 = some f ∧ StartsLine ((O.lines[x.2.1]!).level + cl.level - e) c f :=
+  Pasfmt.applied_child_first_token _ lines rfl ft ft1 x (Pasfmt.wrapStageFull_children cfg lines ft0 ftz sols h x hx) ha
+
+/-- from the moment a solution is applied to the end of the wrapper stage ("the last writer wins"): `R` is any property
+    of the counters of token `j` that does not look at the spaces (for a child line: "1 or 2 line breaks, so many
+    indentations").  If every applied solution that writes `j` leaves it with `R` (`wrapStageFull_child_first_token`
+    gives that for first tokens of child lines) and some applied solution writes `j`, then `j` leaves the stage -
+    string passes, re-wrapping, removal of spaces at line starts included - with `R` -/
+theorem wrapStageFull_last_writer (R : FmtData → Prop) (hR : ∀ f : FmtData, R f → R { f with sp := 0 })
+    (cfg : Config) (lines : List Line) (ft ftz : FT) (sols : List (Nat × Nat × Sol)) (j : Nat)
+    (h : wrapStageFull cfg lines ft = some (ftz, sols))
+    (hW : ∀ x ∈ sols, Writes lines x j → ∀ fa fb, applySol lines fa x.2.2 x.2.1 = some fb →
+      ∃ f, fmtAt fb j = some f ∧ R f)
+    (hsome : ∃ x ∈ sols, Writes lines x j) :
+    ∃ f, fmtAt ftz j = some f ∧ R f :=
+  Pasfmt.wrapStageFull_last_writer R hR cfg lines ft ftz sols j h hW hsome
+
+/-- `begin_style = always_wrap`, `format_line`: started with a well-formed cache (`CacheOk'`; the empty cache is:
+    `Pasfmt.cacheOk'_empty`) it keeps it well-formed, and the solution it returns satisfies `TreeOk'` (stronger than
+    `TreeOk`): at every depth, the child solutions hanging off a decision are placed by one option, they are the
+    solutions of exactly the child lines of one record of `lineChildren`, and when that record hangs off `else`, `then`,
+    `do` or the colon of a case arm and its first child line starts with `begin` (`BeginCond`), the option is "break
+    before every child line, at the parent's indentation" -/
+theorem format_line_begin_always_wrap (O : Olf) (cache : ChildLineCache) (lineIdx : Nat) (hc : CacheOk' O cache) :
+    CacheOk' O (O.formatLine cache lineIdx).2 ∧ ∀ sol, (O.formatLine cache lineIdx).1 = some sol → TreeOk' O sol :=
+  Pasfmt.format_line_begin_always_wrap O cache lineIdx hc
+
+/-- `begin_style = always_wrap` in the RETURNED solution (not only at the decision point): for a decision `d` of a
+    solution with `TreeOk'` (every solution `format_line` returns, and every solution nested in it), the child
+    solutions of `d` are all placed by one option derived from the solution's starting whitespace `W`; either there are
+    none, or they are the solutions of exactly the child lines of a record `lc` of `lineChildren`, and if
+    `begin_style = always_wrap`, `lc` hangs off `else`/`then`/`do`/case-arm colon and its first child line starts with
+    `begin`, then that option is `BreakAll` at the parent's indentation: the `begin` line starts with
+    `W.indentations + level - 1` indentations and `W.continuations`, and its first decision is a break with no
+    continuation (so `begin` starts its own line at the indentation of the controlling statement) -/
+theorem begin_always_wrap (O : Olf) (sol : FormattingSolution) (h : TreeOk' O sol) (d : TokenDecision)
+    (hd : d ∈ sol.decisions) :
+    ∃ option, OptionFrom sol.startingWs option ∧
+      (∀ p x, d.childSolutions[p]? = some x → ChildSolOk O option p x ∧ TreeOk' O x.2) ∧
+      (d.childSolutions = [] ∨ ∃ key lc, O.lineChildren.get? key = some lc ∧
+        d.childSolutions.map (·.1) = lc.lineIndices.toList ∧
+        (BeginCond O lc → option = .breakAll { whitespace := sol.startingWs, deindent := 1 } ∧
+          ∀ x, d.childSolutions[0]? = some x →
+            x.2.startingWs = { indentations := sol.startingWs.indentations + (O.lines[x.1]!).level - 1,
+                               continuations := sol.startingWs.continuations } ∧
+            ((O.lines[x.1]!).tokens[0]?.isSome →
+              (x.2.decisions.head?).map (·.decision) = some (rootDec O (O.lines[x.1]!) .brk)))) :=
+  Pasfmt.begin_always_wrap h hd
+
+/-- under `BeginCond` the first child solution exists and is the solution of a line whose first token is `begin` -/
+theorem begin_always_wrap_first (O : Olf) (lc : LineChildren) (hb : BeginCond O lc)
+    (sols : List (Nat × FormattingSolution)) (hm : sols.map (·.1) = lc.lineIndices.toList) :
+    ∃ x t, sols[0]? = some x ∧ lc.lineIndices[0]? = some x.1 ∧ (O.lines[x.1]!).tokens[0]? = some t ∧
+      O.getTokenType t = some (.tKeyword .kBegin) :=
+  Pasfmt.begin_always_wrap_first hb hm
+
+/-- the whole wrapper stage: every solution it applies (first wrapping and re-wrapping) is the image of a search
+    solution with `TreeOk'` that starts with its line's level and no continuation; here
+    `(stageOlf (searchInit cfg lines ft) ft).breakBeforeBegin = cfg.beginAlwaysWrap` -/
+theorem wrapStageFull_begin_always_wrap (cfg : Config) (lines : List Line) (ft ftz : FT)
+    (sols : List (Nat × Nat × Sol)) (h : wrapStageFull cfg lines ft = some (ftz, sols)) :
+    ∀ x ∈ sols, SolOk' (stageOlf (searchInit cfg lines ft) ft) x :=
+  Pasfmt.wrapStageFull_begin_always_wrap cfg lines ft ftz sols h
+
+/-- `begin_style = always_wrap`, down to the counters: when a solution `root` the search returned (`TreeOk'`) is
+    applied, for every solution `par` in its tree (any depth) and every decision of `par` with child solutions, these
+    belong to a record `lc` of `lineChildren`, and under `BeginCond` (always_wrap; parent token `else`/`then`/`do`/
+    case-arm colon; first child line starts with `begin`) the `begin` token `c0` ends up with one line break (two where a
+    blank line was), `W.indentations + level - 1` indentations and `W.continuations`, `W` the starting whitespace of
+    the controlling line's solution - provided the tree writes `c0` once and the `begin` line is not one that must stay
+    on its predecessor's line -/
+theorem begin_always_wrap_counters (O : Olf) (lines : List Line) (ft ft1 : FT) (root par : FormattingSolution)
+    (k m li pli : Nat) (hroot : TreeOk' O root) (hdesc : FDesc k root li par pli)
+    (d : TokenDecision) (hd : d ∈ par.decisions)
+    (ha : applySol lines ft (root.toSol (k + 2 + m)) li = some ft1) :
+    d.childSolutions = [] ∨ ∃ key lc, O.lineChildren.get? key = some lc ∧
+      d.childSolutions.map (·.1) = lc.lineIndices.toList ∧
+      (BeginCond O lc →
+        ∀ (x : Nat × FormattingSolution) (cl : Line) (c0 : Nat), d.childSolutions[0]? = some x →
+          lines[x.1]? = some cl → O.lines[x.1]! = cl.toA → cl.tokens[0]? = some c0 →
+          (solTokens lines (root.toSol (k + 2 + m)) li).count c0 = 1 →
+          O.getFormattingInvariant 0 cl.toA ≠ some .mustNotBreak →
+          ∃ t, ft[c0]? = some t ∧
+            ft1[c0]? = some { t with fmt :=
+              { t.fmt with nl := nlc t.fmt.nl, ind := par.startingWs.indentations + cl.level - 1,
+                           cont := par.startingWs.continuations } }) :=
+  Pasfmt.begin_always_wrap_counters O lines ft ft1 root par k m li pli hroot hdesc d hd ha
 
 end Pasfmt.C05
